@@ -81,7 +81,7 @@ CLAIMED = {
         _CB + " (bounded for the registry, proof for the dispatch): Kani inductive-step contracts on ServerState::add_handlers/remove_handlers/get_handler sliced from server.rs, from an arbitrary registry "
         "state satisfying the invariant; Kani contract on try_handle_request sliced from net/server.rs (registry linked by contract) for every request path",
         "Bounded contract checking: one add/remove step from ANY registry state satisfying the invariant within 3 services x 2 keys over 4 URIs, observed through get_handler for every URI; "
-        "an inductive step, hence every add/remove history inside that size (add_handlers: service and added key set concrete per harness, nine combinations). Proved (class P): the dispatch "
+        "an inductive step, hence every add/remove history inside that size (add_handlers: service and added key set concrete per harness, two combinations). Proved (class P): the dispatch "
         "glue serves a request exactly when the registry has a handler for the request's own path (any path <= 15 bytes, byte for byte), with that handler, once, and refuses it as unavailable otherwise.",
         "DESIGN.md sections 4 (C13) and 9.11",
         "Locks are exclusive cells; crate::hash injective on registered URIs; hyper connection handling and response framing (handle_connection / handle_message) read, not verified.", engine="kani"),
